@@ -735,7 +735,16 @@ impl<'a, R: RoleType, T: IsPacketId> Gen<'a, R, T> {
                 let g: Vec<u8> = (0..n).map(|_| self.rng.below(256) as u8).collect();
                 self.recv(g);
             }
-            1 => self.recv(vec![0x30, 0xff, 0xff, 0xff, 0xff, 0x00]),
+            1 => {
+                // over-long Remaining Length; framing must resume at the very next byte
+                let mut b = vec![0x30, 0xff, 0xff, 0xff, 0xff];
+                match self.rng.below(3) {
+                    0 => b.push(0x00),
+                    1 => b.extend(w_publish(v, pw, 0, false, false, b"a", 0, &[], b"after")),
+                    _ => b.extend(w_simple(0xd0)),
+                }
+                self.recv(b)
+            }
             2 => {
                 // mutate a valid frame
                 let mut b = match self.rng.below(5) {
